@@ -8,8 +8,8 @@ import time
 
 from . import env
 
-EVID = os.path.join(env.VERIF, "evidence")
-REPLAYS = os.path.join(env.VERIF, "replays")
+EVID = os.environ.get("VERIF_EVIDENCE_DIR") or os.path.join(env.VERIF, "evidence")
+REPLAYS = os.environ.get("VERIF_REPLAY_DIR") or os.path.join(env.VERIF, "replays")
 KNOWN = os.path.join(env.VERIF, "known_findings.json")
 
 
